@@ -92,17 +92,17 @@ func c07Types() []c07Type {
 }
 
 var c07Paths = []string{
-	"write",                // rows written through WriteRows
-	"write+dict",           // dictionary encoded column
-	"write+dict-fallback",  // dictionary overflow -> PLAIN pages
-	"write+smallpages",     // several pages per chunk
-	"write+maxrows2",       // several row groups
-	"write+deferred",       // deferred bloom filters
-	"write+gzipfilter",     // gzip-compressed filter
-	"write+v1",             // data page v1
-	"rowgroup(buffer)",     // WriteRowGroup of a buffer (size known)
-	"rowgroup(file,copy)",  // WriteRowGroup of a file row group, same config (verbatim copy)
-	"rowgroup(file,recode)", // WriteRowGroup of a file row group, other codec (re-encode)
+	"write",                      // rows written through WriteRows
+	"write+dict",                 // dictionary encoded column
+	"write+dict-fallback",        // dictionary overflow -> PLAIN pages
+	"write+smallpages",           // several pages per chunk
+	"write+maxrows2",             // several row groups
+	"write+deferred",             // deferred bloom filters
+	"write+gzipfilter",           // gzip-compressed filter
+	"write+v1",                   // data page v1
+	"rowgroup(buffer)",           // WriteRowGroup of a buffer (size known)
+	"rowgroup(file,copy)",        // WriteRowGroup of a file row group, same config (verbatim copy)
+	"rowgroup(file,recode)",      // WriteRowGroup of a file row group, other codec (re-encode)
 	"rowgroup(file,nobloom-src)", // source without filter: must be built
 }
 
